@@ -69,6 +69,10 @@ theorem add_assoc_us (a b c : EventTime) (ha : Small a) (hb : Small b) (hc : Sma
   · rw [h1]; exact h5
   · rw [h3]; exact h7
 
+example : Small ⟨9007199254, .S⟩ ∧ Small ⟨-9007199254740, .MS⟩ ∧ Small ⟨9007199254740991, .US⟩ ∧
+    (EventTime.add ⟨9007199254, .S⟩ ⟨-9007199254740, .MS⟩ >>= fun x => x.add ⟨9007199254740991, .US⟩)
+      = .ok ⟨9007199254000991, .US⟩ := by decide
+
 /-- `a == b ↔ toUs a = toUs b`. -/
 theorem eq_iff_us (a b : EventTime) (ha : Small a) (hb : Small b) :
     a.eq b = .ok (decide (a.toUs = b.toUs)) :=
@@ -97,6 +101,9 @@ theorem lt_strict_total_order (a b c : EventTime) (ha : Small a) (hb : Small b) 
     lt_iff_us b a hb ha, eq_iff_us a b ha hb]
   simp only [Except.ok.injEq, decide_eq_true_eq, decide_eq_false_iff_not]
   refine ⟨by omega, by omega, by omega, by omega⟩
+
+example : EventTime.lt ⟨-1, .US⟩ ⟨0, .S⟩ = .ok true ∧ EventTime.lt ⟨999, .US⟩ ⟨1, .MS⟩ = .ok true ∧
+    EventTime.gt ⟨1, .S⟩ ⟨999, .MS⟩ = .ok true ∧ EventTime.le ⟨1, .S⟩ ⟨1000, .MS⟩ = .ok true := by decide
 
 /-- `min`/`max` of Python on two time values return the µs minimum / maximum. -/
 theorem min_max_us (a b : EventTime) (ha : Small a) (hb : Small b) :
@@ -136,6 +143,11 @@ theorem eq_beyond_bound_witness :
 
 /-! ## Event order (M2) -/
 
+/-- The task-carrying types of the source, as a `ht` for the examples below. -/
+def sourceHasTask (v : Nat) : Bool :=
+  taskEventTypeNames.any fun n => eventTypeValue? n == some v
+
+
 /-- `Event.__lt__` is a strict weak order on well-formed events (task present exactly when
 the type says so): irreflexive, asymmetric, transitive, and "not less" is transitive. -/
 theorem event_lt_strict_weak_order (ht : Nat → Bool) (x y z : Event)
@@ -153,6 +165,10 @@ theorem event_lt_strict_weak_order (ht : Nat → Bool) (x y z : Event)
     -- z ≤ x and x < y give … contradiction with y < z
     have h3 : Event.lt y z = false := swo.le_trans hz hx hy h (swo.asymm hx hy h1)
     rw [h2] at h3; cases h3
+
+example : Event.WF sourceHasTask ⟨0, 5, 3, some "a@g"⟩ ∧ Event.WF sourceHasTask ⟨1, 5, 3, some "b@g"⟩ ∧
+    Event.WF sourceHasTask ⟨2, 5, 11, none⟩ ∧ Event.lt ⟨0, 5, 3, some "a@g"⟩ ⟨1, 5, 3, some "b@g"⟩ = true ∧
+    Event.lt ⟨1, 5, 3, some "b@g"⟩ ⟨2, 5, 11, none⟩ = true := by decide
 
 /-- It is the lexicographic order on (time µs, type value, task name). -/
 theorem event_lt_is_lexicographic (a b : Event) :
@@ -315,10 +331,6 @@ theorem equal_time_type_priority (ht : Nat → Bool) (ops : List QOp)
   refine ⟨hle, ?_, ?_⟩
   · intro hx hyf; omega
   · intro hx; constructor <;> intro hyy <;> omega
-
-/-- The task-carrying types of the source, as a `ht` for the theorems above. -/
-def sourceHasTask (v : Nat) : Bool :=
-  taskEventTypeNames.any fun n => eventTypeValue? n == some v
 
 /-- Non-vacuity: a concrete history (same-instant TASK_FINISHED / TASK_PLACEMENT /
 SCHEDULER_START inserted in the wrong order, a removal, a re-timing) meets the hypotheses,
